@@ -28,6 +28,7 @@ RULE = (
     'generic irrational translation, atom reorderings (swap Li atoms; interleave framework), site permutations; thorough: '
     'float radius / per-label radii alternate; all 5 site permutations and ordered pairs (rotation x translation x permutation); evaluation = one transformed '
     'pipeline run compared with the base run; distinct = distinct base pipeline outcomes'
+    '; observables include the centre-of-mass diffusivity and the collective pairs of a synthetic two-jump table over four wrapped sites (extra site a quarter cell behind base site 0) at cut-offs 1..5'
 )
 LEVEL_TEXT = (
     'Bounded-exhaustive metamorphic exploration: every trace of the bound is evaluated in the base '
